@@ -107,6 +107,28 @@ Proof.
     + now rewrite <- app_assoc in IH2.
 Qed.
 
+Lemma chain_ge : forall l a e a0 b, chain a l e -> In (a0, b) l -> a <= a0.
+Proof.
+  induction l as [|[a1 b1] r IH]; intros a e a0 b H Hin; [destruct Hin|]. cbn [chain] in H. destruct H as [-> H].
+  destruct Hin as [E|Hin].
+  - assert (a = a0) by congruence. blia.
+  - pose proof (IH (a + blen b1) e a0 b H Hin). blia.
+Qed.
+
+Lemma read_at_ge : forall dk a n x lo, (forall a0 b, In (a0, b) dk -> lo <= a0) -> read_at dk a n = Some x -> lo <= a.
+Proof.
+  induction dk as [|[a0 b] r IH]; intros a n x lo HL H; cbn [read_at] in H; [discriminate|].
+  destruct ((a0 <=? a) && (a + n <=? a0 + GHeap.blen b)) eqn:E.
+  - apply andb_true_iff in E as [E1 _]. apply N.leb_le in E1. specialize (HL a0 b (or_introl eq_refl)). blia.
+  - apply (IH a n x lo); [|exact H]. intros a1 b1 Hin. apply (HL a1 b1). now right.
+Qed.
+
+Lemma read_collection_ge dk a rc lo : (forall a0 b, In (a0, b) dk -> lo <= a0) -> read_collection dk a = GHeap.Ok rc -> lo <= a.
+Proof.
+  unfold read_collection. intros HL H. destruct (read_at dk a 16) as [h|] eqn:Eh; [|discriminate].
+  exact (read_at_ge dk a 16 h lo HL Eh).
+Qed.
+
 (* ------------------------------------------------------------------ (C) the two object loops agree *)
 Definition obj_pair (x : gobj) : N * bytes := (o_index x, o_data x).
 
